@@ -59,6 +59,7 @@ type RawSrvParams struct {
 	Stats   bool        `json:"stats"`
 	Hostile bool        `json:"hostile"` // sequences are arbitrary (C13); otherwise valid foreign conversations (C03, C05)
 	Close   bool        `json:"close"`   // fail the client's reads at the end
+	CloseErr int        `json:"close_err,omitempty"` // which error the client's Read reports when the connection ends
 	Enum    int         `json:"enum,omitempty"` // >0: Seq is the idx-th sequence of that length in the bounded enumeration
 }
 
@@ -166,7 +167,9 @@ func genRawValid(g *rand.Rand, tier string) any {
 			for j := 0; j < nb; j++ {
 				sc = append(sc, RBody)
 			}
-			sc = append(sc, []int{RTrailerOK, RTrailerOK, RTrailerNoStatus, RTrailerErr, RReset}[g.IntN(5)])
+			if g.IntN(6) != 0 {
+				sc = append(sc, []int{RTrailerOK, RTrailerOK, RTrailerNoStatus, RTrailerErr, RReset}[g.IntN(5)])
+			} // else: the peer never finishes the stream; the connection ends instead
 		}
 		p.Calls = append(p.Calls, c)
 		scripts = append(scripts, sc)
@@ -188,7 +191,8 @@ func genRawValid(g *rand.Rand, tier string) any {
 		pos[i]++
 	}
 	p.Stats = g.IntN(2) == 0
-	p.Close = g.IntN(2) == 0
+	p.Close = true
+	p.CloseErr = g.IntN(6)
 	return p
 }
 
@@ -327,7 +331,7 @@ func execRawSrv(e *Env, pp any) {
 	}
 	closed := false
 	if p.Close || p.Hostile {
-		a.In.FailRead(ErrInjected)
+		a.In.FailRead(InjectedErr(p.CloseErr))
 		e.Note("fault.link.readFail")
 		closed = true
 		reason = e.Settle()
@@ -434,6 +438,12 @@ func checkForeign(e *Env, sim *Sim, p *RawSrvParams, closed bool) {
 				e.Violate("C03", "success-on-reset", site, "call %d: the stream was reset by the peer, caller observed success (io.EOF)", id)
 			} else if st, _ := status.FromError(err); st.Code() == codes.OK {
 				e.Violate("C03", "success-on-reset", site, "call %d: the stream was reset by the peer, caller observed an OK status", id)
+			}
+		}
+		if x.end == 0 && closed {
+			e.Note("foreign.unfinished-then-closed")
+			if err == nil {
+				e.Violate("C03", "success-on-connection-loss", site, "call %d: the peer never finished the call and the connection ended, caller observed success (io.EOF / nil)", id)
 			}
 		}
 		if c.Kind != KUnary && r.CFinalSet && r.CFinal == io.EOF && x.end != 1 {
